@@ -133,15 +133,18 @@ def near(rng, a):
     return None
 
 
-def valid(text):
-    """valid = accepted by the stix2-patterns grammar (trusted base)"""
+def valid(text, version="2.1"):
+    """valid = accepted by the stix2-patterns grammar of that version (trusted base)"""
     from stix2patterns.validator import run_validator
     try:
-        return not run_validator(text, stix_version="2.1")
+        return not run_validator(text, stix_version=version)
     except Exception:  # noqa
         # the validator's inspector itself fails on some grammatical input (a negative list index): then the grammar alone decides
         try:
-            from stix2patterns.v21.pattern import Pattern
+            if version == "2.0":
+                from stix2patterns.v20.pattern import Pattern
+            else:
+                from stix2patterns.v21.pattern import Pattern
             Pattern(text)
             return True
         except Exception:  # noqa
